@@ -16,7 +16,8 @@ import numpy as np
 from common import canon_idx, ints
 
 OPS = ["fill_depressions(edge)", "fill_depressions(min)", "fill_depressions(idxs_pit)", "get_edge", "from_dem",
-       "fill_depressions(twice)", "fill_depressions(max_depth>=0)", "fill_depressions(elv_max)", "from_dem(max_depth>=0)"]
+       "fill_depressions(twice)", "fill_depressions(max_depth>=0)", "fill_depressions(elv_max)", "from_dem(max_depth>=0)",
+       "fill_depressions(max_depth<0)", "from_dem(max_depth<0)"]
 RULE = ("elevation rasters <= 64 cells (quick) / <= 900 (thorough) of dtype int32/float32/float64: small-level "
         "random surfaces (plateaus, ties), bowls and nested bowls, ridged surfaces, 1xN / Nx1 profiles, dyadic and "
         "arbitrary random floats, huge int32, nodata holes/blocks/frames incl. NaN nodata; connectivity 4 and 8; "
@@ -27,10 +28,35 @@ RULE = ("elevation rasters <= 64 cells (quick) / <= 900 (thorough) of dtype int3
         "[min, max], surfaces anchored at min / max / 0 / the values a dtype cast would turn the nodata value into), "
         "nodata = the default argument (omitted or -9999.0), a value no cell of the dtype can hold (out of range on "
         "either side, non-integral, 1e20, NaN: every cell is valid) or an explicit in-range value (min, max, 0, a cast "
-        "image of -9999, random) with nodata holes")
+        "image of -9999, random) with nodata holes. unlimited fill depth is requested in every documented spelling: "
+        "max_depth omitted (default), -1.0, or any other negative number (python int or float: -1, -2, -0.5, -1e-9, "
+        "-9999, -1e300, -inf, random negative ints / floats of any magnitude), through fill_depressions (both "
+        "applications) and from_dem; all are judged against the unlimited-fill model / certificate / minimax oracle")
 
 DTYPES = ["int32", "float32", "float64"]
 NARROW = ["uint8", "uint16", "int8", "int16"]
+
+# documented: "A negative value (default) equals an infinitely large pour point depth causing all depressions to be
+# filled" - every negative max_depth (python int or float, any magnitude) is a spelling of the unlimited fill
+NEG_DEPTHS = [-1.0, -1, -2, -2.0, -0.5, -1e-9, -9999, -9999.0, float("-inf"), -1e300, -5e-324, -3]
+
+
+def gen_neg_depth(rng):
+    """a negative max_depth: one of the fixed spellings, or a random negative int / float of any magnitude"""
+    u = rng.random()
+    if u < 0.6:
+        return rng.choice(NEG_DEPTHS)
+    if u < 0.75:
+        return -rng.randint(1, 10 ** rng.randint(1, 9))
+    if u < 0.9:
+        return -(rng.random() + 2.0 ** -40) * 10.0 ** rng.randint(-12, 12)
+    return -float(rng.randint(1, 100)) / rng.choice([1, 2, 4, 8, 1024])
+
+
+def neg_depth_name(md):
+    if md in NEG_DEPTHS:
+        return "%s:%r" % (type(md).__name__, md)
+    return "%s:random(%s)" % (type(md).__name__, "|x|<1" if abs(md) < 1 else "|x|>=1")
 
 
 # ----------------------------------------------------------------------------------------------
@@ -331,6 +357,8 @@ def gen_case(rng, max_cells, max_side):
     if vfam in ("int", "integral", "dyadic") and rng.random() < 0.3:
         span = float(valid_vals[-1]) - float(valid_vals[0])
         desc["max_depth"] = rng.choice([0.0, 0.0, 0.125, 0.5, 1.0, 1.0, 2.0, 3.0, max(0.0, span / 2), span, span + 1.0])
+    elif rng.random() < 0.4:
+        desc["max_depth"] = gen_neg_depth(rng)      # unlimited fill, spelled out (else: the default argument)
     return desc
 
 
@@ -442,6 +470,8 @@ def gen_narrow_case(rng, max_cells, max_side):
     if rng.random() < 0.2:
         # (fill heights beyond the maximum of a signed narrow dtype included: fix a080d39 / F06b)
         desc["max_depth"] = float(rng.choice([0, 1, 2, 3, span // 2, span, span + 1, rng.randint(0, span + 1)]))
+    elif rng.random() < 0.4:
+        desc["max_depth"] = gen_neg_depth(rng)
     return desc
 
 
@@ -514,6 +544,16 @@ def run_case(ctx, desc, with_from_dem=False, oracle=True):
     minflag = 1 if desc["outlets"] == "min" else 0
     if desc.get("max_depth") is not None and desc["max_depth"] >= 0:
         return run_depth_case(ctx, desc, with_from_dem)
+    mdkw = {}
+    if desc.get("max_depth") is not None:
+        # a negative max_depth (python int or float as generated): the unlimited fill, judged like the default
+        assert desc["max_depth"] < 0
+        mdkw["max_depth"] = desc["max_depth"]
+        kw.update(mdkw)
+        ctx.count("max_depth<0")
+        ctx.count("max_depth<0:" + neg_depth_name(desc["max_depth"]))
+    else:
+        ctx.count("max_depth:omitted")
     elv_max = desc.get("elv_max")
     elv_max_i = None
     if elv_max is not None:
@@ -692,7 +732,7 @@ def run_case(ctx, desc, with_from_dem=False, oracle=True):
     fd = None
     if with_from_dem and conn == 8 and pits is None and elv_max is None:
         try:
-            flw = pyflwdir.from_dem(elev, outlets=desc["outlets"], **ndkw)
+            flw = pyflwdir.from_dem(elev, outlets=desc["outlets"], **ndkw, **mdkw)
             fd = canon_idx(flw.idxs_ds, n)
         except Exception as e:
             # the FlwdirRaster constructor documents ValueError for rasters of one cell and for rasters
@@ -703,6 +743,8 @@ def run_case(ctx, desc, with_from_dem=False, oracle=True):
                 py_fail.append({"kind": "spec", "what": f"from_dem raised {type(e).__name__}: {e}"})
         if fd is not None:
             ctx.count("op:from_dem")
+            if mdkw:
+                ctx.count("op:from_dem(max_depth<0)")
             reqs.append(("c06_from_dem", {"nrow": nrow, "ncol": ncol, "elev": elev_i, "nod": nod_l, "min": minflag,
                                           "impl.ds": fd, "impl.f": f_i, "impl.d8": d8_i}))
 
@@ -976,6 +1018,16 @@ def corner_cases():
             # nested depressions: inner deeper than max_depth, outer shallower
             mk((1, 9), "float32", [0, 5, 1, 3, 0, 3, 1, 7, 2], conn=conn, outlets="min")
             out[-1]["max_depth"] = md
+    # unlimited fill in every negative spelling of max_depth (docstring: any negative value = fill everything):
+    # single pit, nested depressions on a line, a bowl with a nodata hole; fill_depressions and (conn 8) from_dem
+    for md in NEG_DEPTHS:
+        for conn in (4, 8):
+            mk((3, 3), "float32", [5, 5, 5, 5, 1, 5, 5, 5, 5], conn=conn)
+            out[-1]["max_depth"] = md
+            mk((1, 9), "int32", [0, 5, 1, 3, 0, 3, 1, 7, 2], conn=conn, outlets="min")
+            out[-1]["max_depth"] = md
+            mk((4, 4), "float64", [3, 3, 3, 3, 3, 1, nan, 3, 3, 0, 1, 3, 3, 3, 2, 3], nodata=nan, conn=conn, pits=[14])
+            out[-1]["max_depth"] = md
     # elv_max: below all edge cells (ValueError), between, above
     for em in (-1.0, 3.0, 4.0, 100.0):
         mk((3, 3), "float32", [5, 4, 5, 3, 1, 5, 5, 5, 5])
@@ -1087,6 +1139,8 @@ def run(ctx):
             tc = tiny(shape, lv, rng.choice([4, 8]), "min" if mode == "min" else "edge", pits, rng.choice(DTYPES))
             if rng.random() < 0.4:
                 tc["max_depth"] = float(rng.choice([0, 1, 1, 2]))
+            elif rng.random() < 0.4:
+                tc["max_depth"] = gen_neg_depth(rng)
             run_case(ctx, tc, oracle=True)
         ctx.count("tiny-universe-sampled", 120)
     else:
